@@ -94,6 +94,17 @@ Fixpoint spec_ok_vec (l : list Z) (tr : list (vop * vout)) : bool :=
       else negb (must_fail l op) && vout_eqb o (snd (lstep l op)) && spec_ok_vec (fst (lstep l op)) tr'
   end.
 
+(* the same replay when allocation failures may strike anywhere (fault injection, a full arena): a failed
+   ALLOC / CALLOC / RESERVE is accepted at any size - and must still change nothing: the replay goes on
+   from the unchanged contents *)
+Fixpoint spec_ok_vec_faulty (l : list Z) (tr : list (vop * vout)) : bool :=
+  match tr with
+  | [] => true
+  | (op, o) :: tr' =>
+      if is_failure op o then spec_ok_vec_faulty l tr'
+      else negb (must_fail l op) && vout_eqb o (snd (lstep l op)) && spec_ok_vec_faulty (fst (lstep l op)) tr'
+  end.
+
 (* the contents the specification arrives at after the trace *)
 Fixpoint spec_final (l : list Z) (tr : list (vop * vout)) : list Z :=
   match tr with
